@@ -13,6 +13,12 @@ same arrays / the same algorithm object; the same tables drawn first WITH a freq
 and then without one; another table of that shape; the same tables scanned with another order step), for order steps
 1, 2, 3. Each history case is executed in a child process forked from a process that has not
 drawn any chart, so its verdict is that of the replay file in a fresh process and no case sees another case's state.
+
+Two charts alive at once is one more history axis: a "two-alive" case draws a chart A and KEEPS it (nothing is closed), draws a
+chart B (another table through the same route / through the function resp. the class method / through an algorithm object of another
+class; or the same arrays resp. the same algorithm object as the other chart kind), and then judges what A's returned axes carry
+NOW against A's tables and B's against B's; the two figures and axes must be distinct objects. Every table route and both
+singular-value routes are the first chart; same forked-child harness.
 """
 import itertools
 import os
@@ -31,10 +37,13 @@ TECHNIQUE = ("bounded-exhaustive enumeration of pole/label tables (all assignmen
              "coordinate of a marker is bound behaviourally to SSI_mpe / pLSCF_mpe (extraction at int(y) must return that pole)")
 LEVEL_TEXT = ("every table of the stated shapes over the 3-symbol cell alphabet and every option combination stated in the bounds "
               "is drawn with the real code and every marker / error bar / curve of the returned axes (of the supplied axes where the caller "
-              "supplies them) is judged, and every other axes of the caller / of pyplot must carry no artist")
+              "supplies them) is judged, and every other axes of the caller / of pyplot must carry no artist; in the two-alive cases the chart "
+              "returned FIRST is judged again after a second chart was drawn without closing anything")
 RULE = ("one case = (route, table, hide_poles, freqlim, covariance, where the chart is drawn, call form) resp. (route, singular-value "
         "array, nSv, freqlim, where the chart is drawn, call form), one chart each, or a history case (route, table, hide_poles, covariance, order step, kind of prior drawing): two figures drawn one "
-        "after the other in one fresh process, the second one judged; a table or history case is non-trivial if the table holds at least one stable, one unstable and one NaN cell (every branch "
+        "after the other in one fresh process, the second one judged, or a two-alive case (route of the first chart, kind of second chart, table resp. "
+        "singular-value array, options of both, where each is drawn): two charts drawn in one fresh process with nothing closed in between, both judged after "
+        "the second drawing; a table, history or two-alive table case is non-trivial if the table holds at least one stable, one unstable and one NaN cell (every branch "
         "of the marker selection is exercised in the same figure); a CMIF case is non-trivial if at least two curves are "
         "requested and the first singular value peaks at a different line than another requested one; distinct by the case tuple")
 ASSUMPTIONS = [
@@ -50,6 +59,11 @@ ASSUMPTIONS = [
     "assigned by hand.)",
     "history cases judge the SECOND drawing only; the first one is discarded unseen (it is judged as a single drawing elsewhere in the lattice); an "
     "exception raised by the first drawing is reported",
+    "two charts alive at once: what a plot function / plot method returned is the chart of the tables it was given for as long as the caller keeps "
+    "it: after a second chart was drawn (no plt.close in between) the axes returned first must still carry exactly the first table's markers / "
+    "curves and still belong to the figure returned with them, the second call must return another Figure and another Axes object (the caller "
+    "supplies either a fresh figure of his own or none), and no third axes may carry an artist. The first chart is also judged before the second "
+    "is drawn. Order step 1, ordmin 0, no frequency window on the first chart",
     "ordmin = 0 except for a sub-lattice with ordmin 1 and 2 (labels of lower orders are 0 there, all retained poles are still drawn; the order axis of the stabilisation diagram starts at ordmin, so markers of lower orders are drawn below the view)",
     "where the chart is drawn: plot.stab_plot and plot.CMIF_plot document fig= / ax= ('an existing axes object to plot on'; the selection "
     "dialog uses them with the axes of a Figure it embeds itself). With supplied axes the chart judged is what the SUPPLIED axes carry, the "
@@ -1204,9 +1218,9 @@ def alive_cases(thorough):
             for wa, wb in where_pairs(route, rb):
                 own = (wa, wb) == ("own", "own")
                 for nch in (2, 3, 4):
-                    sub = allsyms[5::(7 if thorough else 29)] + ([("dcba" * L)[:L]] if nch >= 3 else [])
-                    if not own and not thorough:
-                        sub = sub[:1]
+                    sub = allsyms[5::(31 if thorough else 29)] + ([("dcba" * L)[:L]] if nch >= 3 else [])
+                    if not own:
+                        sub = sub[:4 if thorough else 1]                 # supplied axes: with the first arrays
                     for i, syms in enumerate(sub):
                         if thorough:
                             nsvs = ["all"] + list(range(1, nch))
